@@ -13,6 +13,7 @@ import PolyVerif.Lemmas.MeshWeld
 import PolyVerif.Lemmas.MeshAllRef
 import PolyVerif.Lemmas.MeshSplit
 import PolyVerif.Lemmas.MeshWeldFull
+import PolyVerif.Lemmas.MeshRepeat
 import PolyVerif.Lemmas.MeshTransformsWF
 
 namespace PolyVerif.C03
@@ -105,6 +106,23 @@ theorem append_rejects (zero : Nat → α) (a b : MeshVal α) : append zero a b 
 example : ∃ m, append (fun _ => 0) sample (sample.setAttr ⟨1, "Class"⟩ []) = some m ∧
     m.cornersOf ⟨1, "Class"⟩ = some [some 20, some 22, some 21, some 22, some 20, some 23,
                                       some 0, some 0, some 0, some 0, some 0, some 0] := ⟨_, rfl, by decide⟩
+
+/-- Append, for every key at once: corner list (zeros where absent) of the result = the two lists concatenated. -/
+theorem append_cornersOrZero [DecidableEq α] {zero : Nat → α} {a b m : MeshVal α} (ha : WF a) (hb : WF b)
+    (h : append zero a b = some m) (k : AttrKey) :
+    cornersOrZero zero m k = cornersOrZero zero a k ++ cornersOrZero zero b k :=
+  MeshVal.append_cornersOrZero ha hb h k
+
+/-- `repeat.Mesh(mesh, transforms)`: for every attribute the corners of the result are the corners of
+    the transformed copies (`mesh` with Position mapped by each transform), one copy after another. -/
+theorem repeatMesh_corners [DecidableEq α] {zero : Nat → α} {pos : AttrKey} {m r : MeshVal α} (h : WF m)
+    (ts : List (α → α)) (hr : repeatMesh zero pos m ts = some r) (k : AttrKey) :
+    cornersOrZero zero r k = ts.flatMap (copyCorners zero pos m k) := MeshVal.repeatMesh_corners h ts hr k
+
+example : ∃ r, repeatMesh (fun _ => 0) ⟨3, "Position"⟩ sample [(· + 100), (· + 200)] = some r ∧
+    cornersOrZero (fun _ => 0) r ⟨3, "Position"⟩ =
+      [some 110, some 112, some 111, some 112, some 110, some 113,
+       some 210, some 212, some 211, some 212, some 210, some 213] := ⟨_, rfl, by decide⟩
 
 /-! ## Weld -/
 
